@@ -1,6 +1,7 @@
 import DashLive.Model.Periods
 import DashLive.Lemmas.Segments
 import DashLive.Lemmas.Avail
+import DashLive.Props.C02
 /-! Helper lemmas for C12 (`Model/Periods.lean`): the VOD loop, the live loop as a walk
 along the global period sequence (`startG` of `Lemmas/Segments.lean` with the period
 durations as the list and their sum as the loop length), id rendering, and the
@@ -403,31 +404,269 @@ theorem mpsIndex_number (durs : List Nat) (R sn tc : Nat) (num : Int) (hR : 0 < 
     push_cast
     rfl
 
-/-- the index calculation for a `$Time$` request -/
+/-- the position selected for the start of a stored segment inside the first loop is that
+segment (under the C02 hypotheses H1, H2) -/
+theorem index_at_start (durs : List Nat) (R g : Nat) (hn : 0 < durs.length) (hg : g < durs.length)
+    (h1 : StartsInsideLoop durs R) (h2 : PositiveDurs durs) :
+    index durs R (prefixSum durs g) = g := by
+  have hR : 0 < R := by have := h1 0 hn; omega
+  have hs : startG durs R g = prefixSum durs g := by
+    unfold startG; rw [Nat.div_eq_of_lt hg, Nat.mod_eq_of_lt hg]; omega
+  have h := C02_time_resolves durs R g hn h1 h2
+  rw [hs, getSegmentIndex_eq durs R _ hn] at h
+  simp only [Prod.mk.injEq] at h
+  obtain ⟨a, _, c⟩ := h
+  rw [Nat.div_eq_of_lt hg, Nat.mod_eq_of_lt hg] at *
+  have hd : index durs R (prefixSum durs g) / durs.length = 0 := by
+    rw [Nat.zero_mul] at c
+    rcases Nat.mul_eq_zero.mp c with h | h
+    · exact h
+    · omega
+  have := Nat.div_add_mod (index durs R (prefixSum durs g)) durs.length
+  rw [hd] at this
+  omega
+
+/-- the index calculation for a `$Time$` request (fix 488ab59) -/
 theorem mpsIndex_time (durs : List Nat) (R sn tc t : Nat) (hR : 0 < R) (hn : 0 < durs.length) :
     mpsIndex durs R sn tc (.time t) =
-      if durs.length ≤ index durs R (tc + t) then .notFound
-      else .ok ((index durs R (tc + t) : Int) + 1) (-(prefixSum durs (index durs R (tc + t)) : Int) + t)
-        ((sn : Int) + ((index durs R (tc + t) - index durs R tc : Nat) : Int)) := by
+      if durs.length ≤ index durs R tc then .notFound
+      else if durs.length ≤ index durs R (prefixSum durs (index durs R tc) + t) then .notFound
+      else .ok ((index durs R (prefixSum durs (index durs R tc) + t) : Int) + 1)
+        (-(prefixSum durs (index durs R tc) : Int))
+        ((sn : Int) + (index durs R (prefixSum durs (index durs R tc) + t) : Int) - (index durs R tc : Int)) := by
   unfold mpsIndex
   simp only [getSegmentIndex_eq durs R _ hn]
-  by_cases hq : durs.length ≤ index durs R (tc + t)
-  · have h1 : 1 ≤ index durs R (tc + t) / durs.length := (Nat.le_div_iff_mul_le hn).mpr (by omega)
-    have h2 : 1 * R ≤ index durs R (tc + t) / durs.length * R := Nat.mul_le_mul_right _ h1
-    have h3 : index durs R (tc + t) / durs.length * R > 0 := by omega
+  by_cases hq : durs.length ≤ index durs R tc
+  · have h1 : 1 ≤ index durs R tc / durs.length := (Nat.le_div_iff_mul_le hn).mpr (by omega)
+    have h2 : 1 * R ≤ index durs R tc / durs.length * R := Nat.mul_le_mul_right _ h1
+    have h3 : index durs R tc / durs.length * R > 0 := by omega
     simp only [h3, if_true, hq]
-  · have hlt : index durs R (tc + t) < durs.length := by omega
-    have hmono := index_mono durs R tc (tc + t) hR hn (by omega)
-    have hlt' : index durs R tc < durs.length := by omega
-    have hz : index durs R (tc + t) / durs.length * R = 0 := by
+  · have hlt : index durs R tc < durs.length := by omega
+    have hz : index durs R tc / durs.length * R = 0 := by
       rw [Nat.div_eq_of_lt hlt]; omega
-    have hs : startG durs R (index durs R (tc + t)) = prefixSum durs (index durs R (tc + t)) := by
+    have hs : startG durs R (index durs R tc) = prefixSum durs (index durs R tc) := by
       unfold startG; rw [Nat.div_eq_of_lt hlt, Nat.mod_eq_of_lt hlt]; omega
-    have hnb : ¬ (index durs R (tc + t) + 1 < index durs R tc + 1) := by omega
-    simp only [hz, hs, hq, if_false, Nat.mod_eq_of_lt hlt, Nat.mod_eq_of_lt hlt', gt_iff_lt,
-      Nat.lt_irrefl, hnb]
-    congr 1
-    push_cast
-    omega
+    simp only [hz, hs, hq, if_false, gt_iff_lt, Nat.lt_irrefl]
+    by_cases hq2 : durs.length ≤ index durs R (prefixSum durs (index durs R tc) + t)
+    · have h1 : 1 ≤ index durs R (prefixSum durs (index durs R tc) + t) / durs.length :=
+        (Nat.le_div_iff_mul_le hn).mpr (by omega)
+      have h2 := Nat.mul_le_mul_right R h1
+      have h3 : 0 < index durs R (prefixSum durs (index durs R tc) + t) / durs.length * R := by omega
+      simp only [h3, if_true, hq2]
+    · have hlt2 : index durs R (prefixSum durs (index durs R tc) + t) < durs.length := by omega
+      have hz2 : index durs R (prefixSum durs (index durs R tc) + t) / durs.length * R = 0 := by
+        rw [Nat.div_eq_of_lt hlt2]; omega
+      simp only [hz2, hq2, if_false, Nat.lt_irrefl, Nat.mod_eq_of_lt hlt, Nat.mod_eq_of_lt hlt2]
+      congr 1
+      · push_cast; omega
+
+/-! ### the SegmentTimeline of a Period -/
+
+/-- the plain sequence of durations the `while` loop of `generate_period_timeline` walks over -/
+def ptRaw (durs : List Nat) (lim : Nat) : Nat → Nat → Nat → List Int
+  | 0, _, _ => []
+  | f+1, m, pos =>
+    if m < durs.length ∧ pos * 1000000 < lim then
+      (durAt durs m : Int) :: ptRaw durs lim f (m + 1) (pos + durAt durs m)
+    else []
+
+/-- invariant of the loop once a node is being filled -/
+theorem ptLoop_mid (durs : List Nat) (lim : Nat) :
+    ∀ fuel m pos (cur : SNode) (acc : List SNode) (t0 : Int) (dc : Int), cur.dur = some dc →
+      expandFrom t0 (ptLoop durs lim fuel m pos cur acc)
+        = expandFrom t0 (acc ++ [cur])
+          ++ accumulate (endTime t0 (acc ++ [cur])) (ptRaw durs lim fuel m pos) := by
+  intro fuel
+  induction fuel with
+  | zero =>
+    intro m pos cur acc t0 dc hc
+    simp [ptLoop, ptRaw, accumulate, outputNode, hc]
+  | succ f ih =>
+    intro m pos cur acc t0 dc hc
+    unfold ptLoop ptRaw
+    by_cases hlt : m < durs.length ∧ pos * 1000000 < lim
+    · simp only [hlt, and_self, if_true]
+      have hnone : cur.dur.isNone = false := by simp [hc]
+      simp only [hnone, Bool.false_eq_true, if_false]
+      by_cases hsame : some (durAt durs m : Int) ≠ cur.dur
+      · simp only [if_pos hsame]
+        have := ih (m + 1) (pos + durAt durs m)
+          { SNode.fresh with dur := some (durAt durs m : Int), count := SNode.fresh.count + 1 }
+          (outputNode acc cur) t0 (durAt durs m : Int) rfl
+        rw [this]
+        simp only [outputNode, hc, Option.isSome_some, if_true, accumulate]
+        rw [expandFrom_append, expandFrom_append, endTime_append, endTime_append]
+        simp [expandFrom, endTime, SNode.fresh, List.range_succ]
+        rw [endTime_append]
+        simp [endTime]
+      · simp only [if_neg hsame]
+        have hceq : cur.dur = some (durAt durs m : Int) := by
+          by_cases h : some (durAt durs m : Int) = cur.dur
+          · exact h.symm
+          · exact absurd h hsame
+        have := ih (m + 1) (pos + durAt durs m)
+          { cur with dur := some (durAt durs m : Int), count := cur.count + 1 }
+          acc t0 (durAt durs m : Int) rfl
+        rw [this]
+        have hcur : ({ cur with dur := some (durAt durs m : Int), count := cur.count + 1 } : SNode)
+            = { cur with count := cur.count + 1 } := by
+          cases cur; simp_all
+        rw [hcur, expandFrom_append, expandFrom_append, endTime_append, endTime_append,
+          expandFrom_single_succ _ _ _ hceq, endTime_single_succ _ _ _ hceq]
+        simp only [accumulate, List.append_assoc, List.singleton_append]
+        congr 2
+        simp only [endTime, hceq, Option.getD_some]
+    · simp only [hlt, if_false, accumulate, List.append_nil, outputNode, hc, Option.isSome_some, if_true]
+
+/-- **the `<S>` list means the walked durations**, accumulated from the position the walk
+starts at -/
+theorem ptLoop_expand (durs : List Nat) (lim fuel m pos : Nat) :
+    expand (ptLoop durs lim fuel m pos SNode.fresh [])
+      = accumulate (pos : Int) (ptRaw durs lim fuel m pos) := by
+  unfold expand
+  cases fuel with
+  | zero => simp [ptLoop, ptRaw, accumulate, outputNode, SNode.fresh, expandFrom]
+  | succ f =>
+    unfold ptLoop ptRaw
+    by_cases hlt : m < durs.length ∧ pos * 1000000 < lim
+    · simp only [hlt, and_self, if_true]
+      have := ptLoop_mid durs lim f (m + 1) (pos + durAt durs m)
+        { start := some (pos : Int), dur := some (durAt durs m : Int), count := 1 } [] 0
+        (durAt durs m : Int) rfl
+      simp only [SNode.fresh] at *
+      simp only [Option.isNone_none, if_true]
+      rw [this]
+      simp [expandFrom, endTime, accumulate, List.range_succ]
+    · simp [hlt, accumulate, outputNode, SNode.fresh, expandFrom]
+
+theorem accumulate_length (t : Int) (l : List Int) : (accumulate t l).length = l.length := by
+  induction l generalizing t with
+  | nil => rfl
+  | cons d ds ih => simp [accumulate, ih]
+
+/-- **what the walk lists**: entry `j` is stored segment `m + j`, at the position it has
+counted from the start of the walk; every listed segment exists and starts before the limit;
+and (with enough fuel) the walk only stops at the end of the media or at the limit. -/
+theorem ptRaw_spec (durs : List Nat) (lim : Nat) :
+    ∀ (fuel m pos : Nat),
+      (∀ j (h : j < (accumulate (pos : Int) (ptRaw durs lim fuel m pos)).length),
+        (accumulate (pos : Int) (ptRaw durs lim fuel m pos))[j] =
+          ((pos : Int) + prefixSum durs (m + j) - prefixSum durs m, (durAt durs (m + j) : Int)) ∧
+        m + j < durs.length ∧
+        ((pos : Int) + prefixSum durs (m + j) - prefixSum durs m) * 1000000 < lim) ∧
+      (durs.length + 1 ≤ m + fuel → m ≤ durs.length →
+        (m + (ptRaw durs lim fuel m pos).length = durs.length ∨
+         (m + (ptRaw durs lim fuel m pos).length < durs.length ∧
+          (lim : Int) ≤ ((pos : Int) + prefixSum durs (m + (ptRaw durs lim fuel m pos).length)
+            - prefixSum durs m) * 1000000))) := by
+  intro fuel
+  induction fuel with
+  | zero =>
+    intro m pos
+    refine ⟨?_, ?_⟩
+    · intro j h; simp [ptRaw, accumulate] at h
+    · intro h1 h2; omega
+  | succ f ih =>
+    intro m pos
+    unfold ptRaw
+    by_cases hlt : m < durs.length ∧ pos * 1000000 < lim
+    · simp only [hlt, and_self, if_true, accumulate, List.length_cons]
+      obtain ⟨ia, ib⟩ := ih (m + 1) (pos + durAt durs m)
+      have hps := prefixSum_succ (durs := durs) (k := m) hlt.1
+      have hcast : ((pos + durAt durs m : Nat) : Int) = (pos : Int) + (durAt durs m : Int) := by push_cast; rfl
+      rw [hcast] at ia
+      refine ⟨?_, ?_⟩
+      · intro j h
+        cases j with
+        | zero =>
+          simp only [List.getElem_cons_zero, Nat.add_zero]
+          refine ⟨by congr 1; omega, hlt.1, ?_⟩
+          have : ((pos : Int) + prefixSum durs m - prefixSum durs m) = pos := by omega
+          rw [this]
+          exact_mod_cast hlt.2
+        | succ j =>
+          simp only [List.getElem_cons_succ]
+          have hj : j < (accumulate ((pos : Int) + (durAt durs m : Int))
+              (ptRaw durs lim f (m + 1) (pos + durAt durs m))).length := by
+            simpa using h
+          obtain ⟨e1, e2, e3⟩ := ia j hj
+          have hidx : m + 1 + j = m + (j + 1) := by omega
+          rw [hidx] at e1 e2 e3
+          refine ⟨?_, e2, ?_⟩
+          · rw [e1]; congr 1; omega
+          · have : (pos : Int) + prefixSum durs (m + (j + 1)) - prefixSum durs m
+                = (pos : Int) + (durAt durs m : Int) + prefixSum durs (m + (j + 1)) - prefixSum durs (m + 1) := by
+              omega
+            rw [this]; exact e3
+      · intro h1 h2
+        have := ib (by omega) (by omega)
+        have hidx : m + 1 + (ptRaw durs lim f (m + 1) (pos + durAt durs m)).length
+            = m + ((ptRaw durs lim f (m + 1) (pos + durAt durs m)).length + 1) := by omega
+        rw [hidx] at this
+        rcases this with h | ⟨h, h'⟩
+        · left; exact h
+        · right
+          refine ⟨h, ?_⟩
+          have e : ((pos + durAt durs m : Nat) : Int) + prefixSum durs (m + ((ptRaw durs lim f (m + 1) (pos + durAt durs m)).length + 1))
+              - prefixSum durs (m + 1)
+              = (pos : Int) + prefixSum durs (m + ((ptRaw durs lim f (m + 1) (pos + durAt durs m)).length + 1))
+                - prefixSum durs m := by
+            push_cast; omega
+          rw [e] at h'
+          exact h'
+    · simp only [hlt, if_false, accumulate, List.length_nil, Nat.add_zero]
+      refine ⟨?_, ?_⟩
+      · intro j h; simp at h
+      · intro h1 h2
+        by_cases hm : m = durs.length
+        · left; exact hm
+        · right
+          refine ⟨by omega, ?_⟩
+          have hp : ¬ pos * 1000000 < lim := fun h => hlt ⟨by omega, h⟩
+          have : ((pos : Int) + prefixSum durs m - prefixSum durs m) = pos := by omega
+          rw [this]
+          exact_mod_cast Nat.le_of_not_lt hp
+
+/-- the SegmentTimeline of a Period, expanded: the source segments from the selected one -/
+theorem periodTimeline_expand (durs : List Nat) (R ts tc durUs : Nat) (hn : 0 < durs.length)
+    (hin : index durs R tc < durs.length) :
+    expand (periodTimeline durs R ts tc durUs)
+      = accumulate ((0 : Nat) : Int) (ptRaw durs (durUs * ts) (durs.length + 1) (index durs R tc) 0) := by
+  unfold periodTimeline
+  simp only [getSegmentIndex_eq durs R tc hn]
+  have hz : ¬ (index durs R tc / durs.length * R > 0) := by
+    rw [Nat.div_eq_of_lt hin]; omega
+  simp only [hz, if_false, Nat.mod_eq_of_lt hin, Nat.add_sub_cancel]
+  exact ptLoop_expand durs (durUs * ts) (durs.length + 1) (index durs R tc) 0
+
+/-- quantised durations are whole milliseconds -/
+theorem quantise_dvd (us : Nat) : 1000 ∣ quantise us := by
+  unfold quantise; exact Nat.dvd_mul_left 1000 _
+
+theorem quantise_near (us : Nat) : us ≤ quantise us + 499 ∧ quantise us ≤ us + 500 := by
+  unfold quantise; omega
+
+theorem presented_durations_dvd (ps : List PeriodDef) :
+    ∀ d, d ∈ durations (presented ps) → 1000 ∣ d := by
+  intro d hd
+  unfold durations presented at hd
+  simp only [List.map_map, List.mem_map, Function.comp] at hd
+  obtain ⟨p, _, rfl⟩ := hd
+  exact quantise_dvd _
+
+theorem sum_dvd (l : List Nat) (k : Nat) (h : ∀ d, d ∈ l → k ∣ d) : k ∣ l.sum := by
+  induction l with
+  | nil => simp
+  | cons a l ih =>
+    rw [List.sum_cons]
+    exact Nat.dvd_add (h a (by simp)) (ih fun d hd => h d (by simp [hd]))
+
+theorem prefixSum_dvd (l : List Nat) (k i : Nat) (h : ∀ d, d ∈ l → k ∣ d) : k ∣ prefixSum l i := by
+  unfold prefixSum
+  exact sum_dvd _ k fun d hd => h d (List.mem_of_mem_take hd)
+
+theorem startG_dvd (l : List Nat) (k g : Nat) (h : ∀ d, d ∈ l → k ∣ d) : k ∣ startG l l.sum g := by
+  unfold startG
+  exact Nat.dvd_add (Nat.dvd_mul_left_of_dvd (sum_dvd l k h) _) (prefixSum_dvd l k _ h)
 
 end DashLive.Periods
